@@ -100,7 +100,7 @@ fn program_of(kind: &Kind, cin: usize, contracts: &[ContentAddress]) -> Vec<Op> 
     ops
 }
 
-struct Built { pred: Predicate, programs: Vec<Program> }
+struct Built { pred: Predicate, programs: Vec<Program>, data_keys: Vec<Key> }
 
 /// Abstract random DAG -> numbering with non-leaves first (arbitrary, usually non-topological order) -> CSR encoding.
 fn gen_dag(rng: &mut Rng, contracts: &[ContentAddress], keys: &[Key]) -> Built {
@@ -173,7 +173,9 @@ fn gen_dag(rng: &mut Rng, contracts: &[ContentAddress], keys: &[Key]) -> Built {
         nodes.push(Node { edge_start, program_address: addr });
         programs.push(prog);
     }
-    Built { pred: Predicate { nodes, edges }, programs }
+    let mut data_keys: Vec<Key> = vec![];
+    for k in &kinds { if let Kind::LeafData(w) = k { if let Ok(ms) = essential_types::solution::decode::decode_mutations(w) { data_keys.extend(ms.into_iter().map(|m| m.key)); } } }
+    Built { pred: Predicate { nodes, edges }, programs, data_keys }
 }
 
 /// Raw random node/edge vectors: overlapping ranges, leaves in the middle, invalid ranges, cycles, self loops, dangling targets.
@@ -194,7 +196,7 @@ fn gen_raw(rng: &mut Rng) -> Built {
         nd.program_address = essential_hash::content_addr(&prog);
         programs.push(prog);
     }
-    Built { pred: Predicate { nodes, edges }, programs }
+    Built { pred: Predicate { nodes, edges }, programs, data_keys: vec![] }
 }
 
 pub struct GCase {
@@ -211,6 +213,7 @@ pub fn gen_case(rng: &mut Rng) -> GCase {
     let nsol = rng.range(1, 3) as usize;
     let raw = rng.chance(1, 5);
     let mut preds = vec![]; let mut programs = vec![]; let mut sols = vec![];
+    let mut proposed: Vec<(ContentAddress, Vec<Key>)> = vec![];   // per solution: contract and every key it may propose
     for i in 0..nsol {
         let b = if raw { gen_raw(rng) } else { gen_dag(rng, &contracts, &keys) };
         let paddr = essential_hash::content_addr(&b.pred);
@@ -225,12 +228,19 @@ pub fn gen_case(rng: &mut Rng) -> GCase {
             let taken = sols.iter().any(|s: &Solution| s.predicate_to_solve.contract == c && s.state_mutations.iter().any(|m| m.key == k));
             if !muts.iter().any(|m| m.key == k) && !taken { muts.push(Mutation { key: k, value: if rng.chance(1, 5) { vec![] } else { vec![rng.range(1, 90)] } }); }
         }
+        proposed.push((c.clone(), muts.iter().map(|m| m.key.clone()).chain(b.data_keys.iter().cloned()).collect()));
         sols.push(Solution { predicate_to_solve: PredicateAddress { contract: c, predicate: paddr },
             predicate_data: (0..rng.range(0, 2)).map(|_| vec![rng.small()]).collect(), state_mutations: muts });
     }
     let mut state: BTreeMap<ContentAddress, BTreeMap<Key, Vec<Word>>> = BTreeMap::new();
     for c in &contracts { for k in &keys { if rng.chance(1, 2) { state.entry(c.clone()).or_default().insert(k.clone(), vec![rng.range(100, 190)]); } } }
-    GCase { preds, programs, sols, state, collect_all: rng.chance(1, 2), family: if raw { "raw" } else { "dag" }, known_class: None }
+    // known finding F10: two different solutions of one contract propose a value for the same key (declared or computed)
+    let mut f10 = false;
+    for i in 0..proposed.len() { for j in i + 1..proposed.len() {
+        if proposed[i].0 == proposed[j].0 && proposed[i].1.iter().any(|k| proposed[j].1.contains(k)) { f10 = true; }
+    } }
+    GCase { preds, programs, sols, state, collect_all: rng.chance(1, 2), family: if raw { "raw" } else { "dag" },
+            known_class: if f10 { Some("cross_solution_dup_key") } else { None } }
 }
 
 fn coq_pred(p: &Predicate) -> String {
@@ -445,4 +455,80 @@ pub fn run_post(a: &Args) {
         out.bump(if entries.iter().any(|e| e.0 == c) { "contract_has_proposals" } else { "pass_through" });
     }
     out.write(&a.out, a.shards, "post");
+}
+
+fn perms_ix(n: usize) -> Vec<Vec<usize>> {
+    fn go(v: &[usize]) -> Vec<Vec<usize>> {
+        if v.len() <= 1 { return vec![v.to_vec()]; }
+        let mut out = vec![];
+        for i in 0..v.len() { let mut rest = v.to_vec(); let x = rest.remove(i); for mut p in go(&rest) { p.insert(0, x); out.push(p); } }
+        out
+    }
+    go(&(0..n).collect::<Vec<_>>())
+}
+
+/// Engine `perm`: every permutation of a solution set through content_addr, check_set and the two-pass check (C04).
+pub fn run_perm(a: &Args) {
+    let mut out = Out::new("From EB Require Import Corr.RunGraph.", "perm_case", &["perm_mismatches", "perm_spec_failures"]);
+    out.only = a.only;
+    let mut cases: Vec<GCase> = vec![];
+    // known finding F10: two solutions of one contract propose different values for one key; the post-state keeps the last one
+    {
+        let c0 = ContentAddress([0x10; 32]);
+        let contracts = vec![c0.clone(), ContentAddress([0x11; 32])];
+        let mk = |kind: Kind, muts: Vec<Mutation>| -> (Predicate, Vec<(ContentAddress, Vec<u8>)>, Solution) {
+            let prog = Program(asm::to_bytes(program_of(&kind, 0, &contracts)).collect());
+            let pa = essential_hash::content_addr(&prog);
+            let pred = Predicate { nodes: vec![Node { edge_start: u16::MAX, program_address: pa.clone() }], edges: vec![] };
+            let pr = essential_hash::content_addr(&pred);
+            (pred, vec![(pa, prog.0)], Solution { predicate_to_solve: PredicateAddress { contract: c0.clone(), predicate: pr }, predicate_data: vec![], state_mutations: muts })
+        };
+        let (p1, g1, s1) = mk(Kind::LeafPostCheck(vec![9], Some(1)), vec![Mutation { key: vec![9], value: vec![1] }]);
+        let (p2, g2, s2) = mk(Kind::LeafConst(1), vec![Mutation { key: vec![9], value: vec![2] }]);
+        let mut programs = g1; programs.extend(g2);
+        cases.push(GCase { preds: vec![(c0.clone(), s1.predicate_to_solve.predicate.clone(), p1), (c0.clone(), s2.predicate_to_solve.predicate.clone(), p2)],
+            programs, sols: vec![s1, s2], state: BTreeMap::new(), collect_all: false, family: "f10", known_class: Some("cross_solution_dup_key") });
+    }
+    for i in 0..a.count as u64 { let mut rng = Rng::for_case(a.seed, 4, i); let mut c = gen_case(&mut rng); if c.sols.len() == 1 && rng.chance(1, 2) { continue; } c.collect_all = false; cases.push(c); }
+    for (id, c) in cases.iter().enumerate() {
+        if !a.only.map(|o| o == id as u64).unwrap_or(true) { continue; }
+        let n = c.sols.len();
+        let get_pred: Arc<HashMap<PredicateAddress, Arc<Predicate>>> = Arc::new(c.preds.iter().map(|(ca, pa, p)|
+            (PredicateAddress { contract: ca.clone(), predicate: pa.clone() }, Arc::new(p.clone()))).collect());
+        let get_prog = JitterPrograms(Arc::new(c.programs.iter().map(|(a, b)| (a.clone(), Arc::new(Program(b.clone())))).collect()), 0);
+        let state = MemState(Arc::new(c.state.clone()));
+        let mut addrs = vec![]; let mut checks = vec![]; let mut results = vec![];
+        for perm in perms_ix(n) {
+            let sols: Vec<Solution> = perm.iter().map(|i| c.sols[*i].clone()).collect();
+            let set = SolutionSet { solutions: sols };
+            addrs.push(blist(&essential_hash::content_addr(&set).0));
+            checks.push(coq_bool(chk::check_set(&set).is_ok()).to_string());
+            let config = Arc::new(CheckPredicateConfig { collect_all_failures: false });
+            let r = catch_unwind(AssertUnwindSafe(|| chk::check_and_compute_solution_set_two_pass(&state, set, get_pred.clone(), get_prog.clone(), config)));
+            let _ = chk::verif::take_runs();
+            let (code, gas, per_orig): (i64, u64, Vec<Vec<Vec<Word>>>) = match r {
+                Ok(Ok((g, s))) => {
+                    let mut per = vec![vec![]; n];
+                    for (pos, sol) in s.solutions.iter().enumerate() {
+                        let mut enc: Vec<Vec<Word>> = sol.state_mutations.iter().map(|m| m.encode().collect()).collect();
+                        enc.sort();
+                        per[perm[pos]] = enc;
+                    }
+                    (0, g, per)
+                }
+                Ok(Err(PredicatesError::Failed(pe))) => {
+                    let kind = pe.0.iter().map(|(_, e)| match e { PredicateError::Mutations(MutationsError::DecodeError(_)) => 2, PredicateError::Mutations(_) => 3, _ => 1 }).max().unwrap_or(1);
+                    (kind, 0, vec![])
+                }
+                _ => (4, 0, vec![]),
+            };
+            results.push(format!("({}, {}, {})", code, gas, list_of(&per_orig, |ms| list_of(ms, |m| zlist(m.iter().copied())))));
+        }
+        let lit = format!("Build_perm_case {} [{}] [{}] [{}]", list_of(&c.sols, coq_solution), addrs.join("; "), checks.join("; "), results.join("; "));
+        let mut d = json!({"family": c.family, "solutions": n, "permutations": addrs.len(), "results": results.iter().map(|r| r.chars().take(12).collect::<String>()).collect::<Vec<_>>()});
+        if let Some(k) = c.known_class { d["known_class"] = json!(k); }
+        out.push(id as u64, lit, d, n >= 2);
+        out.bump(&format!("solutions_{}", n));
+    }
+    out.write(&a.out, a.shards, "perm");
 }
